@@ -257,7 +257,8 @@ def run(P: Program, R: Report, tier: str) -> None:
                     d_ = [x for x in ast.walk(holder.node) if isinstance(x, ast.Assign) and any(isinstance(t, ast.Name) and t.id == it_expr.id for t in x.targets)]
                     if len(d_) == 1:
                         it = norm(d_[0].value)
-                ok = ".features." in it and (it.startswith("self.tracks.") or it.startswith("tracks."))
+                ok = ".features." in it and (it.startswith("self.tracks.") or it.startswith("tracks.") or (
+                    it.startswith("self.features.") and holder.cls is not None and P.is_subclass(holder.cls.qname, "Tracks")))
                 literal = isinstance(it_expr, (ast.List, ast.Tuple, ast.Set))
                 if ok:
                     R.ok("R01.6", init, n, f"{c.name}: capture iterates the feature registry ({it})", via="dataflow")
@@ -346,8 +347,18 @@ def attr_truthiness(P: Program, R: Report, rule: str) -> None:
     (`is None`): 0, 0.0, False and '' are legal feature values, and a truthiness test drops them from the
     capture, so that the inverse restores the element without them."""
     n = 0
+    scope = []
     for c in P.primitives():
-        for m in c.methods.values():
+        scope += [(c, m) for m in c.methods.values()]
+        init = c.methods.get("__init__")
+        if init is not None:
+            for s_ in ast.walk(init.node):
+                if isinstance(s_, ast.Assign) and isinstance(s_.value, ast.Call) and any(self_field(t) for t in s_.targets):
+                    tgt = P.resolve_call(s_.value, P.local_env(init), init, count=False)
+                    if tgt and tgt[0] == "func" and (c, tgt[1][0]) not in scope and tgt[1][0].cls is not None:
+                        scope.append((c, tgt[1][0]))
+    for c, m in scope:
+        if True:
             vals: set[str] = set()
             stores_: set[str] = set()  # locals holding an element's attribute dict (graph.nodes[n] / graph.edges[e])
             for s in ast.walk(m.node):
